@@ -1,6 +1,7 @@
 import GB.Base.Proto
 import GB.C19.Model
 import GB.C19.Join
+import GB.C19.Query
 /-
   C19 driver.  Lines (hex `x…`; `m:` multimap = `xKEY:xV1,xV2` joined by `;` sorted by key):
 
@@ -85,9 +86,28 @@ def ctClass (cts : List Bytes) : String :=
       (if ct.length == mt.length then "must" else "must+tail")
     else "open"
 
+/-- `_metadata[verif-sentinel]` — the harness appends `&<QueryEscape(sentinel)>=1` to the raw query of `disp` requests -/
+def sentinelKey : Bytes := ascii "_metadata[verif-sentinel]"
+def dispRawQuery (raw : Bytes) : Bytes :=
+  raw ++ (if raw.isEmpty then [] else [38]) ++ escape sentinelKey ++ [61, 49]
+
+/-- does the raw query exercise the irregular paths of `url.ParseQuery`? (branch histogram only) -/
+def rawClass (raw : Bytes) : String :=
+  let segs := (splitB 38 raw).filter (fun s => !s.isEmpty)
+  if segs.length != (queryPairs raw).length then "rawskip"
+  else if raw.contains 37 || raw.contains 43 then "rawesc" else "rawplain"
+
+/-- the recorded `r.URL.Query()` must be the model's `url.ParseQuery` of the raw query that was sent -/
+def queryTie (raw : Bytes) (q : MD) : Option String :=
+  if sortMD q != sortMD (urlQuery raw) then some s!"DIFF model=q:{showMD (urlQuery raw)}" else none
+
 def handle : Handler
-  | ["disp", _m, _rq, _lines], outs =>
+  | ["disp", _m, rqIn, _lines], outs =>
     if outs.head? == some "rejected" then "OK b=disp-rejected-by-net/http" else
+    let qtie := match parseHex rqIn, (field outs "q").bind parseM with
+      | some raw, some q => queryTie (dispRawQuery raw) q
+      | _, _ => some "BAD disp raw query"
+    if let some d := qtie then d else
     match field outs "seen", field outs "q", field outs "h", field outs "st", field outs "sp", field outs "rq" with
     | some seenS, some qS, some h, some st, some sp, some rq =>
       match parseM seenS, parseM qS with
@@ -138,8 +158,12 @@ def handle : Handler
          else s!"VIOL isGRPCWebContentType={out}, the media type says {if m then 1 else 0}")
       else s!"OK nt b=ctype-{cls}-{if ct.any (fun b => b ≥ 128) then "nonascii" else "ascii"}"
     | none => "BAD ctype line"
-  | ["wsmd", via, _rq, _lines], outs =>
+  | ["wsmd", via, rqIn, _lines], outs =>
     if outs.head? == some "rejected" then "OK b=wsmd-rejected-by-net/http" else
+    let qtie := match parseHex rqIn, (field outs "q").bind parseM with
+      | some raw, some q => queryTie raw q
+      | _, _ => some "BAD wsmd raw query"
+    if let some d := qtie then d else
     match field outs "seen", field outs "q", field outs "st", field outs "md" with
     | some seenS, some qS, some st, some mdS =>
       match parseM seenS, parseM qS with
@@ -163,15 +187,16 @@ def handle : Handler
           else s!"OK{if qmd.isEmpty then "" else " nt"} b=wsmd-{via}-{if qmd.isEmpty then "noquerymd" else if hdrCollide then "collides-with-header" else "disjoint"}"
       | _, _ => "BAD wsmd md"
     | _, _, _, _ => "BAD wsmd fields"
-  | ["mdq", ph, _rq], outs =>
-    match parseHex ph, field outs "q", field outs "md", field outs "q2", field outs "mod" with
-    | some param, some qS, some mdS, some q2S, some mod =>
+  | ["mdq", ph, rqIn], outs =>
+    match parseHex rqIn, parseHex ph, field outs "q", field outs "md", field outs "q2", field outs "mod" with
+    | some raw, some param, some qS, some mdS, some q2S, some mod =>
       match parseM qS, parseM mdS, parseM q2S with
       | some q, some md, some q2 =>
         let r := parseMetadataQuery param q
         let mmod := if r.modified then "1" else "0"
         if canonMD md != canonMD r.md then s!"VIOL metadata is not the valid _metadata[k]=v entries model={showMD r.md}"
         else if sortMD q2 != sortMD r.query then s!"VIOL remaining parameters are not the non-metadata entries model={showMD r.query}"
+        else if let some d := queryTie raw q then d
         else if mod != mmod then s!"DIFF model=mod:{mmod}"
         else
           -- order of values under one key is map-order dependent only when two query keys collide
@@ -179,9 +204,9 @@ def handle : Handler
           let ks := (q.filter (fun e => isMetaKey p e.1)).map (fun e => lower (mdKeyOf p e.1))
           let collide := ks.any (fun k => (ks.filter (· == k)).length > 1)
           if !collide && sortMD md != sortMD r.md then s!"DIFF model={showMD r.md}"
-          else s!"OK{if r.modified then " nt" else ""} b=mdq-{if r.md.isEmpty then "nomd" else "md"}-{if collide then "collide" else "plain"}"
+          else s!"OK{if r.modified then " nt" else ""} b=mdq-{if r.md.isEmpty then "nomd" else "md"}-{if collide then "collide" else "plain"}-{rawClass raw}"
       | _, _, _ => "BAD mdq md"
-    | _, _, _, _, _ => "BAD mdq fields"
+    | _, _, _, _, _, _ => "BAD mdq fields"
   | _, _ => "BAD c19 line"
 
 end GB.C19
